@@ -433,6 +433,11 @@ pub fn program_units(p: &Program) -> Vec<ExpUnit> {
                 last_id: *last_id,
                 more,
             }),
+            Unit::BulkRows { n } => out.push(ExpUnit::Ok {
+                affected: *n,
+                last_id: 0,
+                more,
+            }),
             Unit::Rows(r) => {
                 if r.cols.is_empty() {
                     match &r.close {
@@ -483,6 +488,7 @@ pub fn ret_err_reached(p: &Program) -> Option<u32> {
     let early_return = match p.units.last() {
         Some(Unit::Rows(r)) => r.close != Close::FinishOne,
         Some(Unit::Count { .. }) => p.end == End::Implicit,
+        Some(Unit::BulkRows { .. }) => true,
         None => false,
     };
     if early_return {
@@ -501,6 +507,11 @@ pub fn recover_units(p: &Program) -> Option<Vec<ExpUnit>> {
             Unit::Count { affected, last_id } => out.push(ExpUnit::Ok {
                 affected: *affected,
                 last_id: *last_id,
+                more: true,
+            }),
+            Unit::BulkRows { n } => out.push(ExpUnit::Ok {
+                affected: *n,
+                last_id: 0,
                 more: true,
             }),
             Unit::Rows(r) => {
